@@ -155,7 +155,14 @@ def imread_from_npz(path: Union[Path, list[Path]]) -> darsia.Image:
     npzdata = np.load(path, allow_pickle=True)
     array = npzdata["array"]
     metadata = npzdata["metadata"].item()
-    image = darsia.Image(array, **metadata)
+    # Restore the image type the metadata stems from (cf. Image.metadata,
+    # OpticalImage.metadata), such that no metadata is lost.
+    if "color_space" in metadata:
+        image = darsia.OpticalImage(array, **metadata)
+    elif metadata.get("scalar", False):
+        image = darsia.ScalarImage(array, **metadata)
+    else:
+        image = darsia.Image(array, **metadata)
     return image
 
 
